@@ -278,3 +278,261 @@ def find_matches(fn, scrut_ty_contains=None, scrut_contains=None):
             continue
         out.append(m)
     return out
+
+
+# ---------------------------------------------------------------------------------- finite-domain partial evaluation
+
+def peval(fn, start, known, max_paths=400, max_steps=60000):
+    """Walk the MIR from block `start` with the discriminants of some places fixed.
+    known: {place_sig: variant name}; a `discr(place)` whose place_sig is in `known` evaluates to that variant's
+    discriminant, bool/int constants are propagated, every other switch forks.
+    Returns a list of paths: dict(end='panic'|'return'|'loop'|'budget', block, events=[...]) where events are
+    ('call', callee, block) / ('bin', op, a_text, b_text, block) / ('agg', adt, variant, block) / ('ret', text)."""
+    from .panics import place_sig
+    out = []
+    work = [(start, {}, (), frozenset())]
+    steps = 0
+    while work:
+        b, env, events, seen = work.pop()
+        env = dict(env)
+        events = list(events)
+        while True:
+            steps += 1
+            if steps > max_steps or len(out) > max_paths:
+                out.append(dict(end="budget", block=b, events=events))
+                return out
+            if b in seen:
+                out.append(dict(end="loop", block=b, events=events))
+                break
+            seen = seen | {b}
+            blk = fn.blocks[b]
+            for st in blk["s"]:
+                lhs = st["lhs"]
+                rv = st["rv"]
+                val = None
+                k = rv["k"]
+                if k == "discr":
+                    sig = place_sig(fn, rv["of"])
+                    if sig in known:
+                        for dv, name in rv["vars"]:
+                            if name == known[sig]:
+                                val = ("c", dv)
+                elif k == "use":
+                    val = _const_of(fn, rv["a"], env)
+                    if val is not None:
+                        val = ("c", val[1]) if isinstance(val[1], int) else None
+                elif k == "un" and rv["op"] == "Not":
+                    v = _const_of(fn, rv["a"], env)
+                    if v and v[0] == "c" and v[1] in (0, 1):
+                        val = ("c", 1 - v[1])
+                elif k == "bin":
+                    a = show(fn.expr(rv["a"], 2))
+                    bb = show(fn.expr(rv["b"], 2))
+                    events.append(("bin", rv["op"], a, bb, b))
+                    va = _const_of(fn, rv["a"], env)
+                    vb = _const_of(fn, rv["b"], env)
+                    if va and vb and isinstance(va[1], int) and isinstance(vb[1], int) and rv["op"] in ("Eq", "Ne"):
+                        val = ("c", int((va[1] == vb[1]) == (rv["op"] == "Eq")))
+                elif k == "agg":
+                    events.append(("agg", norm(rv["adt"]), rv["variant"], b))
+                if not lhs["p"]:
+                    if val is None:
+                        env.pop(lhs["l"], None)
+                    else:
+                        env[lhs["l"]] = ("c", val[1], str(val[1]))
+            t = blk["t"]
+            k = t["k"]
+            if k == "return":
+                out.append(dict(end="return", block=b, events=events))
+                break
+            if k in ("goto", "drop", "assert"):
+                b = t["t"]
+                continue
+            if k == "call":
+                cal = norm(t.get("res") or t.get("callee")) or "?"
+                events.append(("call", cal, b))
+                if t["t"] is None:
+                    out.append(dict(end="panic", block=b, events=events))
+                    break
+                if not t["dest"]["p"]:
+                    env.pop(t["dest"]["l"], None)
+                b = t["t"]
+                continue
+            if k == "switch":
+                v = _const_of(fn, t["d"], env)
+                if v is not None and v[0] == "c" and isinstance(v[1], int):
+                    nxt = None
+                    for val2, tgt in t["ts"]:
+                        if val2 == v[1]:
+                            nxt = tgt
+                    b = nxt if nxt is not None else t["else"]
+                    continue
+                tg = []
+                for _, tgt in t["ts"]:
+                    if tgt not in tg:
+                        tg.append(tgt)
+                if t["else"] not in tg and fn.blocks[t["else"]]["t"]["k"] != "unreachable":
+                    tg.append(t["else"])
+                for tgt in tg[1:]:
+                    work.append((tgt, env, tuple(events), seen))
+                b = tg[0]
+                continue
+            if k == "unreachable":
+                out.append(dict(end="unreachable", block=b, events=events))
+                break
+            out.append(dict(end="?" + k, block=b, events=events))
+            break
+    return out
+
+
+# ---------------------------------------------------------------------------------- HIR expression evaluation (three-valued)
+
+UNKNOWN = None
+
+
+def span_inside(inner, outer):
+    return (inner[0], inner[1]) >= (outer[0], outer[1]) and (inner[2], inner[3]) <= (outer[2], outer[3])
+
+
+def match_by_span(fn, span):
+    for m in fn.matches:
+        if m.get("span") == span:
+            return m
+    return None
+
+
+def hir_eval(fn, t, env):
+    """Evaluate an exported HIR expression tree over abstract values; returns a value or UNKNOWN.
+    Values: ('V', name, [args]) enum values, ('T', [..]) tuples, bool, int, ('S', text)."""
+    if t is None:
+        return UNKNOWN
+    k = t.get("k")
+    if k == "path":
+        r = t["res"]
+        if r.startswith("local:"):
+            return env.get(r[6:], UNKNOWN)
+        last = r.split("::")[-1]
+        if last and last[0].isupper():
+            return ("V", last, [])
+        return UNKNOWN
+    if k == "lit":
+        v = t["v"]
+        if v.startswith("Bool("):
+            return v == "Bool(true)"
+        if v.startswith("Int("):
+            import re as _re
+            m = _re.search(r"(\d+)", v)
+            return int(m.group(1)) if m else UNKNOWN
+        if v.startswith("Str("):
+            return ("S", lit_str(v))
+        return UNKNOWN
+    if k == "call":
+        f = t["f"]
+        if f.get("k") == "path":
+            last = f["res"].split("::")[-1]
+            if last and last[0].isupper():
+                args = [hir_eval(fn, a, env) for a in t["args"]]
+                if any(a is UNKNOWN for a in args):
+                    return UNKNOWN
+                return ("V", last, args)
+        return UNKNOWN
+    if k == "tup":
+        vals = [hir_eval(fn, a, env) for a in t["es"]]
+        if any(v is UNKNOWN for v in vals):
+            return UNKNOWN
+        return ("T", vals)
+    if k in ("ref", "cast"):
+        return hir_eval(fn, t["e"], env)
+    if k == "un":
+        v = hir_eval(fn, t["e"], env)
+        if t["op"] == "Not":
+            return UNKNOWN if v is UNKNOWN else (not v)
+        if t["op"] == "Deref":
+            return v
+        return UNKNOWN
+    if k == "bin":
+        op = t["op"]
+        if op in ("And", "Or"):
+            l = hir_eval(fn, t["l"], env)
+            if op == "And" and l is False:
+                return False
+            if op == "Or" and l is True:
+                return True
+            # `let` patterns on the left bind names for the right-hand side
+            env2 = env
+            if t["l"].get("k") == "let" and l is True:
+                env2 = dict(env)
+                bind_pat(t["l"]["pat"], hir_eval(fn, t["l"]["init"], env), env2)
+            elif t["l"].get("k") == "bin":
+                env2 = dict(env)
+                collect_let_bindings(fn, t["l"], env, env2)
+            r = hir_eval(fn, t["r"], env2)
+            if op == "And":
+                if r is False:
+                    return False
+                return True if (l is True and r is True) else UNKNOWN
+            if r is True:
+                return True
+            return False if (l is False and r is False) else UNKNOWN
+        l = hir_eval(fn, t["l"], env)
+        r = hir_eval(fn, t["r"], env)
+        if l is UNKNOWN or r is UNKNOWN:
+            return UNKNOWN
+        if op == "Eq":
+            return l == r
+        if op == "Ne":
+            return l != r
+        return UNKNOWN
+    if k == "let":
+        v = hir_eval(fn, t["init"], env)
+        if v is UNKNOWN:
+            return UNKNOWN
+        return pat_match(t["pat"], v)
+    if k == "match":
+        m = match_by_span(fn, t["span"])
+        if m is None:
+            return UNKNOWN
+        v = hir_eval(fn, m["scrut_tree"], env)
+        if v is UNKNOWN:
+            return UNKNOWN
+        arms = first_arm(m, v)
+        if len(arms) != 1:
+            return UNKNOWN
+        return hir_eval(fn, m["arms"][arms[0]]["body_tree"], env)
+    if k == "mcall":
+        recv = hir_eval(fn, t["recv"], env)
+        if recv is not UNKNOWN and isinstance(recv, tuple) and recv[0] == "V":
+            if t["name"] == "is_some":
+                return recv[1] == "Some"
+            if t["name"] == "is_none":
+                return recv[1] == "None"
+        return UNKNOWN
+    return UNKNOWN
+
+
+def bind_pat(pat, val, env):
+    """Bind names of a pattern that is known to match `val`."""
+    if val is UNKNOWN or val is None:
+        return
+    k = pat["k"]
+    if k == "bind":
+        env[pat["name"]] = val
+        if pat.get("sub"):
+            bind_pat(pat["sub"], val, env)
+    elif k == "ctor" and isinstance(val, tuple) and val[0] == "V":
+        for p, v in zip(pat["subs"], val[2]):
+            bind_pat(p, v, env)
+    elif k == "tuple" and isinstance(val, tuple) and val[0] == "T":
+        for p, v in zip(pat["subs"], val[1]):
+            bind_pat(p, v, env)
+
+
+def collect_let_bindings(fn, t, env, env2):
+    """Bindings introduced by `let` conditions on the left spine of an && chain."""
+    if t.get("k") == "let":
+        v = hir_eval(fn, t["init"], env2)
+        if v is not UNKNOWN and pat_match(t["pat"], v):
+            bind_pat(t["pat"], v, env2)
+    elif t.get("k") == "bin" and t["op"] == "And":
+        collect_let_bindings(fn, t["l"], env, env2)
+        collect_let_bindings(fn, t["r"], env, env2)
